@@ -145,3 +145,13 @@ Proof. vm_compute. split; reflexivity. Qed.
    this is what [known_C11 = []] says of the model's run (references: see level_note) *)
 Lemma refs_outside_known : forall c, known_C11 c = [] -> run_refs_coherent (init_sys (c11_n c)) (c11_ops c) = true.
 Proof. intros c H. unfold known_C11 in H. destruct (run_refs_coherent (init_sys (c11_n c)) (c11_ops c)); [reflexivity|discriminate]. Qed.
+
+(* class 5 (open): two peers delete one row in the same millisecond while holding different versions: the
+   two records share the key (row, deletion date) and replace each other; the record peer 0 wrote is gone
+   everywhere at the end *)
+Definition witness_key_clash : c11case :=
+  C11Case 2%N [Create 0%N 1%N 1000 1%N; Pull 1%N 0%N [0]; Update 0%N 1%N 5000 2%N; Delete 0%N 1%N 9000; Delete 1%N 1%N 9000; Pull 0%N 1%N [0]]
+              [Pull 1%N 0%N []; Pull 0%N 1%N []; Pull 1%N 0%N []; Pull 0%N 1%N []].
+Lemma refuted_key_clash : spec_C11 witness_key_clash (run_C11 witness_key_clash) = false /\ known_C11 witness_key_clash = [5] /\
+  map (fun r => map t_mdate (tombs r)) (run_sys (init_sys 2%N) (c11_ops witness_key_clash)) = [[1000]; [1000]].
+Proof. vm_compute. repeat split; reflexivity. Qed.
